@@ -42,6 +42,7 @@ Has(f, k)    == k \in DOMAIN f
 MaxOf(S)     == CHOOSE x \in S : \A y \in S : y <= x
 MinOf(S)     == CHOOSE x \in S : \A y \in S : x <= y
 Empty        == [x \in {} |-> None]
+Over(f, g)   == [x \in (DOMAIN f) \cup (DOMAIN g) |-> IF x \in DOMAIN f THEN f[x] ELSE g[x]]     \* f over g
 
 RECURSIVE LowestN(_, _)
 LowestN(S, n) == IF n <= 0 \/ S = {} THEN <<>> ELSE <<MinOf(S)>> \o LowestN(S \ {MinOf(S)}, n - 1)
@@ -60,13 +61,19 @@ SeqOfRange(a, b) == IF a > b THEN <<>> ELSE <<a>> \o SeqOfRange(a + 1, b)
 (*                     canon    canonical index: height -> block id                                *)
 (*                     diff     identity diffs: height -> block id                                 *)
 (*                     nidx     number of index entries written (observational)                    *)
+(*                     pv, pp   fast sync: preliminary identity tree (versions) and whether the    *)
+(*                              preliminary prefix is registered; xsv imported snapshot (state tree *)
+(*                              under another prefix); phead preliminary head                       *)
 (*            volatile up, mhead (in-memory head), ms / mi (roots of the loaded working trees),     *)
+(*                     mphead (in-memory preliminary head), mp (root of the loaded preliminary tree)*)
 (*                     ph  "idle" | "busy" | "down" | "failed" | "rejected" | "hang"               *)
 (*                     todo  remaining steps of the current operation, why (text of a failure)      *)
 
-Durable(n) == [sv |-> n.sv, iv |-> n.iv, hdr |-> n.hdr, head |-> n.head, canon |-> n.canon, diff |-> n.diff, nidx |-> n.nidx]
+Durable(n) == [sv |-> n.sv, iv |-> n.iv, hdr |-> n.hdr, head |-> n.head, canon |-> n.canon, diff |-> n.diff, nidx |-> n.nidx,
+               pv |-> n.pv, pp |-> n.pp, xsv |-> n.xsv, phead |-> n.phead]
 
-Down(n) == [n EXCEPT !.up = FALSE, !.mhead = NoBlock, !.ms = None, !.mi = None, !.ph = "down", !.todo = <<>>]
+Down(n) == [n EXCEPT !.up = FALSE, !.mhead = NoBlock, !.ms = None, !.mi = None, !.mphead = NoBlock, !.mp = None,
+                     !.ph = "down", !.todo = <<>>]
 
 Step(k, dur) == [k |-> k, dur |-> dur, b |-> NoBlock, v |-> 0, last |-> None]
 StepB(k, dur, b) == [Step(k, dur) EXCEPT !.b = b]
@@ -117,6 +124,8 @@ AddSteps(n, b) ==
          IN  IF s[2] THEN <<[Step("Reject", FALSE) EXCEPT !.last = "state version exists with another hash"]>>
              ELSE IF i[2] THEN s[1] \o <<[Step("Reject", FALSE) EXCEPT !.last = "identity version exists with another hash"]>>
              ELSE s[1] \o i[1] \o InsertSteps(b)
+                  \* AddBlock ends with RemovePreliminaryHead when a preliminary head is known
+                  \o (IF n.mphead # NoBlock THEN <<Step("DelPHead", TRUE)>> ELSE <<>>)
 
 (* ---------------------------------------------------------------------------------------------- *)
 (* ResetTo(t)                                                                                      *)
@@ -140,6 +149,62 @@ ResetSteps(n, t) ==
                    THEN <<StepB("Head", TRUE, HeaderOf(n, n.canon[t]))>>     \* repo.SetHead
                    ELSE <<Step("HeadSkipped", FALSE)>>)                       \* canonical entry missing: head silently kept
                \o RemoveSteps(n, SeqOfRange(t + 1, n.mhead.h)))
+
+(* ---------------------------------------------------------------------------------------------- *)
+(* fast sync up to block H (protocol/fast.go preConsuming / applyDeferredBlocks / postConsuming,    *)
+(* Blockchain.AddHeaderUnsafe, AtomicSwitchToPreliminary).  blk = [height -> block] of the chain.   *)
+(*   fresh:  copy the identity database under a new prefix (many puts: PCopy), register the prefix   *)
+(*           (PfxP, a batch)                                                                        *)
+(*   resume: the preliminary head found at start-up says where to go on; the preliminary tree is    *)
+(*           loaded at its highest version not above that head                                     *)
+(*   per header: commit of the preliminary tree when the identity diff is not empty (PCommit),      *)
+(*           header, canonical hash, preliminary head (three puts), identity diff                   *)
+(*   then:   import of the state snapshot under a new prefix (SnapImport), forced version of the     *)
+(*           preliminary tree at H, ONE batch that switches both prefixes, writes the head and       *)
+(*           removes the preliminary head (Switch), deletion of the replaced databases (DropOld)     *)
+
+SeqToSet(q) == {q[i] : i \in 1..Len(q)}
+
+RECURSIVE HeaderSteps(_, _, _, _)
+HeaderSteps(pv, blk, from, to) ==
+    IF from > to THEN <<>>
+    ELSE LET b == blk[from]
+             c == IF b.kind = "idupd" THEN TreeCommit("P", pv, b.h, b.idr) ELSE <<<<>>, FALSE>>
+             pv2 == IF b.kind = "idupd"
+                    THEN Drop(Put(pv, b.h, b.idr), SeqToSet(PruneList((DOMAIN pv) \cup {b.h}, b.h)))
+                    ELSE pv
+         IN  IF c[2] THEN <<[Step("Fail", FALSE) EXCEPT !.last = "preliminary tree version exists with another hash"]>>
+             ELSE c[1] \o <<StepB("Header", TRUE, b), StepB("Canon", TRUE, b), StepB("PHead", TRUE, b)>>
+                  \o (IF b.kind = "idupd" THEN <<StepB("Diff", TRUE, b)>> ELSE <<>>)
+                  \o HeaderSteps(pv2, blk, from + 1, to)
+
+RECURSIVE PvAfter(_, _, _, _)
+PvAfter(pv, blk, from, to) ==
+    IF from > to THEN pv
+    ELSE LET b == blk[from] IN
+         PvAfter(IF b.kind = "idupd" THEN Drop(Put(pv, b.h, b.idr), SeqToSet(PruneList((DOMAIN pv) \cup {b.h}, b.h))) ELSE pv,
+                 blk, from + 1, to)
+
+FastSyncSteps(n, blk, H) ==
+    LET fresh == n.mphead = NoBlock
+        from  == IF fresh THEN n.mhead.h + 1 ELSE n.mphead.h + 1
+        \* the copy does not clear its target: versions a previous attempt left there survive
+        pv0   == IF fresh THEN Over(n.iv, n.pv) ELSE n.pv
+        usable == {v \in DOMAIN pv0 : v < from}
+        b     == blk[H]
+        \* version of the preliminary tree after the headers: H when block H carried a diff (or was
+        \* committed before the crash), otherwise a forced version is saved
+        last  == IF \E h \in from..H : blk[h].kind = "idupd" THEN MaxOf({h \in from..H : blk[h].kind = "idupd"})
+                 ELSE IF usable = {} THEN 0 ELSE MaxOf(usable)
+    IN  IF ~fresh /\ (~n.pp \/ usable = {})
+        THEN <<[Step("Fail", FALSE) EXCEPT !.last = "preliminary identity tree cannot be loaded"]>>
+        ELSE (IF fresh THEN <<Step("InitPrelim", FALSE), Step("PCopy", TRUE), Step("PfxP", TRUE)>>
+              ELSE <<StepV("LoadPrelim", FALSE, MaxOf(usable))>>)
+             \o HeaderSteps(pv0, blk, from, H)
+             \o (IF DOMAIN n.xsv # {} THEN <<StepV("DropOld", TRUE, 1)>> ELSE <<>>)    \* RecoverSnapshot2 clears the target first
+             \o <<StepB("SnapImport", TRUE, b)>>
+             \o (IF last = H THEN <<>> ELSE TreeCommit("P", PvAfter(pv0, blk, from, H), H, b.idr)[1])   \* SaveForcedVersion
+             \o <<StepB("Switch", TRUE, b), Step("DropOld", TRUE), Step("Settled", FALSE)>>
 
 (* ---------------------------------------------------------------------------------------------- *)
 (* start-up                                                                                        *)
@@ -183,9 +248,23 @@ Effect(n, s) ==
              [n EXCEPT !.iv = Drop(@, {v \in DOMAIN n.iv : v > s.v}), !.mi = n.iv[s.v], !.todo = rest]
       [] s.k = "DelHeader" -> [n EXCEPT !.hdr = {x \in @ : x.id # s.last}, !.todo = rest]
       [] s.k = "DelCanon"  -> [n EXCEPT !.canon = Drop(@, {s.v}), !.todo = rest]
+      [] s.k = "InitPrelim" -> [n EXCEPT !.mphead = n.mhead, !.todo = rest]
+      [] s.k = "LoadPrelim" -> [n EXCEPT !.mp = n.pv[s.v], !.todo = rest]
+      [] s.k = "PCopy"      -> [n EXCEPT !.pv = Over(n.iv, n.pv), !.mp = n.mi, !.todo = rest]
+      [] s.k = "PfxP"       -> [n EXCEPT !.pp = TRUE, !.todo = rest]
+      [] s.k = "PCommit"    -> [n EXCEPT !.pv = Put(@, s.b.h, s.b.root), !.mp = s.b.root, !.todo = rest]
+      [] s.k \in {"PCommitNoop", "PCommitLost"} -> [n EXCEPT !.mp = s.b.root, !.todo = rest]
+      [] s.k = "PPrune"     -> [n EXCEPT !.pv = Drop(@, {s.v}), !.todo = rest]
+      [] s.k = "PHead"      -> [n EXCEPT !.phead = s.b, !.mphead = s.b, !.todo = rest]
+      [] s.k = "SnapImport" -> [n EXCEPT !.xsv = Put(Empty, s.b.h, s.b.root), !.todo = rest]
+      [] s.k = "Switch"     -> [n EXCEPT !.sv = n.xsv, !.iv = n.pv, !.xsv = Empty, !.pv = Empty, !.pp = FALSE,
+                                         !.head = s.b, !.phead = NoBlock, !.mhead = s.b, !.mphead = NoBlock,
+                                         !.ms = n.xsv[s.b.h], !.mi = n.mp, !.mp = None, !.todo = rest]
+      [] s.k \in {"DropOld", "Settled"} -> [n EXCEPT !.todo = rest, !.xsv = IF s.v = 1 THEN Empty ELSE @]
+      [] s.k = "DelPHead"   -> [n EXCEPT !.phead = NoBlock, !.mphead = NoBlock, !.todo = rest]
       [] s.k = "InitChain" -> IF n.head = NoBlock
                               THEN [n EXCEPT !.ph = "failed", !.todo = <<>>, !.why = "no head (genesis generation is outside this module)"]
-                              ELSE [n EXCEPT !.up = TRUE, !.mhead = n.head, !.todo = rest]
+                              ELSE [n EXCEPT !.up = TRUE, !.mhead = n.head, !.mphead = n.phead, !.todo = rest]
       [] s.k = "InitState" ->
              IF Has(n.sv, n.mhead.h) /\ Has(n.iv, n.mhead.h)
              THEN [n EXCEPT !.ms = n.sv[n.mhead.h], !.mi = n.iv[n.mhead.h], !.todo = rest]
